@@ -94,6 +94,18 @@ def translate(repo):
     C["LOCK_FIELD_DROPPED_LAST"] = 1 if names and names[-1] == "_lock" and "guards" in names and "verifiers" in names and names.index("guards") < names.index("verifiers") else 0
     nw = body_of(inj, "pub fn new() -> Self")
     C["NEW_TAKES_THE_LOCK"] = 1 if re.search(r"let (\w+) = LOCK_FUNCTION\.lock\(\);", nw) and re.search(r"_lock: \w+,", nw) else 0
+    # the gate comes first: the builder entry points (when_called*) touch nothing of the injector (they only build the builder: `lib: self`),
+    # and the checked installation calls begin with their test-and-panic (the model's OpRefuse happens in the state before the call)
+    def bodies(src, pat):
+        out = []
+        for m in re.finditer(pat, src):
+            out.append(body_of(src[m.start():], m.group(0)))
+        return out
+    wc = bodies(inj, r"pub (?:unsafe )?fn when_called\w*")
+    C["WHEN_CALLED_TOUCHES_NOTHING"] = 1 if len(wc) >= 4 and all(b and not re.search(r"\bself\s*\.", b) and not re.search(r"\b(drop|retain|clear|pop|remove|truncate)\s*\(", b) for b in wc) else 0
+    g1 = body_of(inj, "pub fn will_execute_raw(self").strip()
+    g2 = body_of(inj, "pub fn will_return_boolean(self").strip()
+    C["GATE_IS_THE_FIRST_STATEMENT"] = 1 if re.match(r"if target\.signature != self\.expected_signature \{\s*panic!\(", g1) and re.match(r"if !returns_bool\(self\.expected_signature\) \{\s*panic!\(", g2) else 0
     # process-wide state: the model has exactly two kinds — the guard (LOCK_FUNCTION) and one call counter per fake! call site.  Any other
     # `static` / thread_local / once-cell in the library (a pool, a table, a cache, a remembered address) is state the model does not have
     def code(path): return re.sub(r"//[^\n]*", "", open(path).read())
